@@ -160,9 +160,11 @@ RULES = ["caseExactMatch", "1.2.840.113556.1.4.803", "2.5.13.5", "x-rule", "dnSu
 
 def r_val(rnd: random.Random, nonempty: bool = False) -> t.List[int]:
     n = rnd.choice((0, 1, 1, 2, 3, 5, 12)) if not nonempty else rnd.choice((1, 1, 2, 3, 5, 12))
-    k = rnd.randrange(3)
+    k = rnd.randrange(4)
     if k == 0:
         return [rnd.randrange(256) for _ in range(n)]
+    if k == 3:  # octets that look like escapes once a backslash is in front of them (a parser that unescapes twice)
+        return list(b"".join(rnd.choice((b"\\", b"\\", b"2a", b"5c", b"28", b"29", b"00", b"41", b"5C", b"*", b"x", b"\\5c")) for _ in range(max(n, 1 if nonempty else 0))))
     if k == 1:
         return [rnd.choice(b"()*\\\x00 =:&|!~<>\xff\x80a\n\x7f") for _ in range(n)]
     return list("".join(msggen.r_char(rnd) for _ in range(n)).encode("utf-8"))[: max(n, 1) * 4] if n else []
@@ -354,6 +356,11 @@ def run_c15(tier: str, seed: int) -> int:
                     texts.append(tx[:p_] + ch + tx[p_:])
                     if p_ < len(tx):
                         texts.append(tx[:p_] + ch + tx[p_ + 1:])
+        # an escaped backslash followed by two hex digits, in every kind of item and every substring position
+        for hh in ("2a", "28", "29", "5c", "5C", "00", "41", "zz"):
+            for tmpl in ("(a=x\\5c{h}y)", "(a=*x\\5c{h}y*)", "(a=x\\5c{h}*)", "(a=*\\5c{h})", "(a=p*q\\5c{h}r*s)", "(a>=\\5c{h})", "(a<=\\5c\\5c{h})", "(a~=\\5c{h})",
+                         "(a:=\\5c{h})", "(a:dn:1.2:=x\\5c{h})", "(&(a=*\\5c{h}*)(b=c))", "(!(a=\\5c{h}*))", "(a=\\5c\\{h})"):
+                texts.append(tmpl.format(h=hh))
         # arbitrary text
         alphabet = "()&|!=*\\:; a1.\n\t\x00é\U0001f600𐂀\udfff~<>"
         for _ in range(2000 if tier == "quick" else 40000):
